@@ -37,9 +37,14 @@ from .constants import DIAMETER_AGENT_CLIENT_MODE
 from .constants import DIAMETER_AGENT_SERVER_MODE
 from .constants import DIAMETER_AGENT_TRANSPORT_TYPE_TCP
 from .constants import DIAMETER_AGENT_TRANSPORT_TYPE_SCTP
+from .exceptions import AVPAttributeValueError
 from .exceptions import AVPParsingError
+from .exceptions import DataTypeError
 from .exceptions import DiameterApplicationError
 from .exceptions import DiameterAssociationError
+from .exceptions import DiameterAvpError
+from .exceptions import DiameterHeaderAttributeValueError
+from .exceptions import DiameterMessageError
 from .messages import DiameterAnswer
 from .messages import DiameterRequest
 from .proxy import BaseMessages
@@ -54,6 +59,12 @@ from .utils import is_base_answer
 
 diameter_conn_logger = logging.getLogger("DiameterConnection")
 diameter_logger = logging.getLogger("Diameter")
+
+#: What decoding a byte stream received from the peer may raise.
+DIAMETER_PARSING_ERRORS = (AVPParsingError, AVPAttributeValueError, 
+                           DataTypeError, DiameterAvpError, 
+                           DiameterMessageError, 
+                           DiameterHeaderAttributeValueError)
 
 
 def make_logging(msg, disable_else=False):
@@ -170,6 +181,7 @@ class DiameterAssociation(object):
             self.lock.acquire()
 
             if self.transport is None:
+                self.lock.release()
                 break
 
             data_stream = self._recv_pending_stream + \
@@ -192,12 +204,13 @@ class DiameterAssociation(object):
                 
                 diameter_conn_logger.debug(f"Found {len(msgs)} Diameter "\
                                            f"Message(s).")
-            except AVPParsingError:
-                diameter_conn_logger.exception(f"AVPParsingError has "\
-                                               f"been raised due stream: "\
-                                               f"{self.transport._recv_data_stream.hex()}")
+            except DIAMETER_PARSING_ERRORS:
+                diameter_conn_logger.exception(f"Parsing error has been "\
+                                               f"raised due stream: "\
+                                               f"{data_stream.hex()}")
 
-            self.lock.release()
+            finally:
+                self.lock.release()
 
 
     @staticmethod
